@@ -55,6 +55,20 @@ def generate(rng, tier):
                     for i in range(len(eh)):
                         prog["x%d" % i] = W.beh_ret(shapes[i % len(shapes)])
                     cases.append(W.mk_case("C04", "hit", "ok", 0, na, [], list(eh), False, prog))
+    # handlers registered for some methods only: lookups are per (type, method) / (status, method)
+    for meth in ("GET", "POST", "DELETE", "BREW"):
+        for eh, ehm in (([0, 1], [4, 2]), ([0, 1], [2, 4]), ([9, 1, 0], [4, 16, 2]), ([1, 0], [16, 511]), ([2, 9], [511, 4])):
+            for cls in (0, 1, 2):
+                prog = {"e": "exc~%d" % cls}
+                for i in range(len(eh)):
+                    prog["x%d" % i] = W.beh_ret(shapes[i])
+                cases.append(W.mk_case("C04", "hit", "ok", 0, 0, [], eh, False, prog, meth, ehm, None))
+        for us, usm in (([404], [4]), ([404, 500], [2, 4]), ([418], [16]), ([404], [511])):
+            for code in (404, 418):
+                prog = {"e": "ab~%d~0~0" % code}
+                for c in us:
+                    prog["s%d" % c] = W.beh_ret(shapes[0])
+                cases.append(W.mk_case("C04", "hit", "ok", 0, 0, us, [], False, prog, meth, None, usm))
     # nested failures to depth 3: endpoint fails -> its handler fails -> the 500 handler fails
     fails = ["exc~0", "exc~2", "ab~404~0~0", "ab~418~0~0", "ret~X", "sysexit", "conn", "base", "ab~0~0~0", "ab~500~0~0"]
     for f1 in fails:
@@ -72,10 +86,18 @@ def observe(case):
     return W.observe(case)
 
 
-def first_handler(cls, eh):
+to_model = W.to_model
+
+
+def first_handler(cls, eh, ehm=None, bit=2):
+    """index (among the handlers registered for the method) of the first one whose type matches"""
+    k = 0
     for i, h in enumerate(eh):
+        if ehm is not None and not (ehm[i] & bit):
+            continue
         if h == 9 or h == cls or (cls == 1 and h == 0):
-            return i
+            return k, i
+        k += 1
     return None
 
 
@@ -116,7 +138,7 @@ def oracle(case):
                 bad = "abort(0) must decline the request"
         elif code == 200 or kw == "1" or (code == 401 and c["digest"]):
             pass
-        elif code in c["us"]:
+        elif code in c["us"] and (c["usm"][c["us"].index(code)] & W.method_bit(c["meth"])):
             h = c["prog"].get("s%d" % code, "ret~N")
             if "s%d" % code not in trace:
                 bad = "status handler for %d did not run" % code
@@ -136,16 +158,17 @@ def oracle(case):
             bad = "abort(response) answered %s instead of the response's %d" % (status, want)
     elif e.startswith("exc~"):
         cls = int(e[4:])
-        i = first_handler(cls, c["eh"])
+        fh = first_handler(cls, c["eh"], c["ehm"], W.method_bit(c["meth"]))
         ran = [t for t in trace if t.startswith("x")]
-        if i is None:
+        if fh is None:
             if ran:
-                bad = "an exception handler ran although none matches"
+                bad = "an exception handler ran although none matches type and method"
             elif 500 not in c["us"] and (status != 500 or body != b"page:500"):
                 bad = "unhandled exception answered %s instead of 500" % status
         else:
-            if ran[:1] != ["x%d" % i]:
-                bad = "exception handler %s ran, required the first matching one x%d" % (ran, i)
+            k, i = fh
+            if ran[:1] != ["x%d" % k]:
+                bad = "exception handler %s ran, required the first one matching type and method (#%d)" % (ran, i)
             else:
                 h = c["prog"].get("x%d" % i, "ret~N")
                 if status_of(h) is not None and status != status_of(h):
